@@ -8,8 +8,6 @@
 #define CQV_PW 0
 #endif
 #define CQV_MAXN ((int64_t)1 << 36)
-/* a float/double counts unless it is NaN (NaN is unordered: nothing bounds it, it bounds nothing) */
-#define PWCOUNTS(c) (c)
 int64_t cqv_k;
 _Bool cqv_old_has;
 int32_t cqv_old_min_i32, cqv_old_max_i32;
@@ -62,10 +60,11 @@ void h_pw_fp_seq(void) {
   w->has_min_max = false;
   pval_t vals[3] = { pw_from_bits(v0bits), pw_from_bits(v1bits), pw_from_bits(v2bits) };
   UPDATE(w, vals, n);
-  __CPROVER_assert(w->has_min_max && w->min_max_size == sizeof(pval_t), "bounds exist");
   pval_t mn = *(pval_t *)w->min_value, mx = *(pval_t *)w->max_value;
+  if (w->has_min_max) __CPROVER_assert(w->min_max_size == sizeof(pval_t) && mn == mn && mx == mx, "bounds have the type's width and are not NaN");
   for (int i = 0; i < 3; i++) {
     if (i < n && vals[i] == vals[i]) {
+      __CPROVER_assert(w->has_min_max, "a number was seen: bounds exist");
       __CPROVER_assert(mn <= vals[i], "min <= every non-NaN value (IEEE)");
       __CPROVER_assert(vals[i] <= mx, "every non-NaN value <= max (IEEE)");
       CQV_CANARY("pw fp seq: number seen");
